@@ -437,6 +437,12 @@ def check_cond(ctx, case, inputs_list):
             continue
         truths = {CMPS[case["cond"][0]](x, y) for x in qa for y in qb}
         lo = -(1 << 63) if inp.get("mode") == "signed" else 0
+        # precondition as for C03: a signed comparison needs both sides in the signed 64-bit range, an unsigned one (neither real
+        # operand object is signed) needs both sides non-negative
+        unsigned_cmp = not (sc.left.signed or getattr(sc.right, "signed", False))
+        if unsigned_cmp and (min(qa) < 0 or min(qb) < 0):
+            out.append("cond:outside")
+            continue
         if len(truths) != 1 or not all(lo <= v < (1 << 63) for v in vals):
             out.append("cond:outside")
             continue
